@@ -60,6 +60,8 @@ type FuncSpec struct {
 	Inline     bool
 	Logged     bool
 	NoFrame    bool
+	ErrProp    bool
+	Tolerate   *Clause
 	Ghost      []*Clause
 	File       string
 	Line       int
@@ -317,6 +319,15 @@ func (sp *Specs) LoadSpecFile(path, pkgName string) {
 				}
 			default:
 				errf(l, "bad loop clause %q", body)
+			}
+		case "errprop":
+			if cur == nil {
+				errf(l, "errprop outside func block")
+				continue
+			}
+			cur.ErrProp = true
+			if strings.HasPrefix(rest, "tolerate") {
+				cur.Tolerate = mkClause(l, strings.TrimSpace(rest[len("tolerate"):]))
 			}
 		case "arith":
 			if cur != nil && rest == "wrap" {
